@@ -97,7 +97,7 @@ static rc::Gen<Case> genCase() {
             c.shape = "lobed:" + h.describe() + " lobes=" + std::to_string(lobes.size());
         }
         c.mesh = mg::place(base, pl);
-        if (*irange(0, 11) == 0 && c.mesh.nn() <= 400) {
+        if (*irange(0, 39) == 0 && c.mesh.nn() <= 400) {
             // The cell's bookkeeping identifies an edge by the Cantor pairing of its two node ids. Large or sparsely numbered cells (a small
             // mesh stored in a long point list) have ids up to ~1e5, where the pairing exceeds 2^32: the node ids are scattered over such a list
             // and two node-disjoint edges get ids whose exact pairings differ by exactly 2^32 (inverse pairing), all other ids are random.
